@@ -135,6 +135,12 @@ class Units:
     def make(v):
         return Units.conv(Fraction(v, Units.den))
 
+    @staticmethod
+    def quantum():
+        """the smallest step (in logging units) by which the drivers vary an amount: one unit, except for float and Decimal chips,
+        where it is a sixteenth of a chip - exact in both types, which 1/15120 is not"""
+        return Units.den // 16 if Units.den != 1 and Units.kind != 'fraction' else 1
+
 
 class OffGrid(ValueError):
     """a chip value of a float/Decimal run that is not a whole number of logging units (a pot divided by 3, 5, 7 in binary or
